@@ -35,3 +35,26 @@ VARIANTS = [
  dict(name='benign-log', file=C, expect='silent',
       find='\tlogger.Debugf("Storing crl bundle to file cache with key %q ...", url)\n', replace='\tlogger.Infof("Storing crl bundle for %q", url)\n'),
 ]
+
+# the locals form of Get / Set (values built in locals, the bundle / entry as one composite literal) and its mutants
+GET_OLD = '\tvar bundle corecrl.Bundle\n\tbundle.BaseCRL, err = x509.ParseRevocationList(content.BaseCRL)\n\tif err != nil {\n\t\treturn nil, fmt.Errorf("failed to parse base CRL of file retrieved from file cache: %w", err)\n\t}\n\tif content.DeltaCRL != nil {\n\t\tbundle.DeltaCRL, err = x509.ParseRevocationList(content.DeltaCRL)\n\t\tif err != nil {\n\t\t\treturn nil, fmt.Errorf("failed to parse delta CRL of file retrieved from file cache: %w", err)\n\t\t}\n\t}\n\n\t// check expiry\n\tif err := checkExpiry(ctx, bundle.BaseCRL.NextUpdate); err != nil {\n\t\treturn nil, fmt.Errorf("check BaseCRL expiry failed: %w", err)\n\t}\n\tif bundle.DeltaCRL != nil {\n\t\tif err := checkExpiry(ctx, bundle.DeltaCRL.NextUpdate); err != nil {\n\t\t\treturn nil, fmt.Errorf("check DeltaCRL expiry failed: %w", err)\n\t\t}\n\t}\n\n\treturn &bundle, nil\n'
+def get_locals(base_arg='content.BaseCRL', delta_arg='content.DeltaCRL', delta_check=True, lit='BaseCRL: baseCRL, DeltaCRL: deltaCRL', delta_guard='deltaCRL != nil'):
+    s = '\tbaseCRL, err := x509.ParseRevocationList(%s)\n\tif err != nil {\n\t\treturn nil, fmt.Errorf("failed to parse base CRL: %%w", err)\n\t}\n\tvar deltaCRL *x509.RevocationList\n\tif content.DeltaCRL != nil {\n\t\tdeltaCRL, err = x509.ParseRevocationList(%s)\n\t\tif err != nil {\n\t\t\treturn nil, fmt.Errorf("failed to parse delta CRL: %%w", err)\n\t\t}\n\t}\n\tif err := checkExpiry(ctx, baseCRL.NextUpdate); err != nil {\n\t\treturn nil, fmt.Errorf("check BaseCRL expiry failed: %%w", err)\n\t}\n' % (base_arg, delta_arg)
+    if delta_check:
+        s += '\tif %s {\n\t\tif err := checkExpiry(ctx, deltaCRL.NextUpdate); err != nil {\n\t\t\treturn nil, fmt.Errorf("check DeltaCRL expiry failed: %%w", err)\n\t\t}\n\t}\n' % delta_guard
+    s += '\treturn &corecrl.Bundle{%s}, nil\n' % lit
+    return s
+SET_OLD = '\tcontent := fileCacheContent{\n\t\tBaseCRL: bundle.BaseCRL.Raw,\n\t}\n\tif bundle.DeltaCRL != nil {\n\t\tcontent.DeltaCRL = bundle.DeltaCRL.Raw\n\t}\n\tcontentBytes, err := json.Marshal(content)\n'
+def set_locals(delta='bundle.DeltaCRL.Raw', lit='BaseCRL: bundle.BaseCRL.Raw, DeltaCRL: deltaRaw'):
+    return '\tvar deltaRaw []byte\n\tif bundle.DeltaCRL != nil {\n\t\tdeltaRaw = %s\n\t}\n\tcontentBytes, err := json.Marshal(fileCacheContent{%s})\n' % (delta, lit)
+VARIANTS += [
+ dict(name='benign-locals-form', file=C, expect='silent', find=GET_OLD, replace=get_locals(), edits=[(C, SET_OLD, set_locals())]),
+ dict(name='benign-locals-delta-guard-on-entry', file=C, expect='silent', find=GET_OLD, replace=get_locals(delta_guard='content.DeltaCRL != nil')),
+ dict(name='locals-fields-swapped-in-literal', file=C, expect='flagged(pairing/get)', find=GET_OLD, replace=get_locals(lit='BaseCRL: deltaCRL, DeltaCRL: baseCRL')),
+ dict(name='locals-delta-parsed-from-base', file=C, expect='flagged(pairing/get)', find=GET_OLD, replace=get_locals(delta_arg='content.BaseCRL')),
+ dict(name='locals-delta-expiry-dropped', file=C, expect='flagged(get/delta-expiry)', find=GET_OLD, replace=get_locals(delta_check=False)),
+ dict(name='locals-delta-expiry-only-when-base-raw-long', file=C, expect='flagged(get/delta-expiry)', find=GET_OLD, replace=get_locals(delta_guard='deltaCRL != nil && len(content.BaseCRL) > 4096')),
+ dict(name='locals-delta-left-out-of-literal', file=C, expect='flagged(pairing/get)', find=GET_OLD, replace=get_locals(lit='BaseCRL: baseCRL')),
+ dict(name='locals-set-delta-from-base', file=C, expect='flagged(pairing/set)', find=SET_OLD, replace=set_locals(delta='bundle.BaseCRL.Raw')),
+ dict(name='locals-set-swapped-in-literal', file=C, expect='flagged(pairing/set)', find=SET_OLD, replace=set_locals(lit='BaseCRL: deltaRaw, DeltaCRL: bundle.BaseCRL.Raw')),
+]
